@@ -326,6 +326,13 @@ func TestC17_Search(t *testing.T) {
 			case "flag-false":
 				args = append(args, "--no-color=false")
 			}
+			if rapid.IntRange(0, 2).Draw(t, "terminal-environment") == 0 {
+				// what terminals and colour conventions put into the environment: none of it outranks
+				// --no-color / NO_COLOR, and none of it changes which results are printed
+				for _, kv := range rapid.SliceOfNDistinct(rapid.SampledFrom([]string{"CLICOLOR_FORCE=1", "FORCE_COLOR=1", "FORCE_COLOR=3", "CLICOLOR=1", "COLORTERM=truecolor", "TERM=xterm-256color", "TERM=dumb", "TERM=", "COLUMNS=20", "COLUMNS=0", "COLUMNS=x", "LINES=1", "LANG=tr_TR.UTF-8", "LC_ALL=C", "TZ=Pacific/Kiritimati", "CI=true", "PAGER=less", "TERM_PROGRAM=vscode"}), 1, 4, func(s string) string { return strings.SplitN(s, "=", 2)[0] }).Draw(t, "terminal-env") {
+					env = append(env, kv)
+				}
+			}
 			for _, p := range platforms {
 				args = append(args, "--platform", p)
 			}
